@@ -110,6 +110,7 @@ type HGenesis struct {
 	Tenants    []GenTenant `json:"tenants,omitempty"`
 	Utxrs      []GenUtxr   `json:"utxrs,omitempty"`
 	Funds      int64    `json:"funds"`    // per account, of each tenant denom
+	BigFunds   bool     `json:"big_funds,omitempty"` // 10^30 of each tenant denom instead (deposits above 2^63)
 	Nft        bool     `json:"nft"`      // deploy the ERC-721 contract in block 1 (from account NAccts-1)
 }
 
@@ -249,7 +250,11 @@ func (h HGenesis) spec() GenesisSpec {
 		big27, _ := sdk.NewIntFromString("1000000000000000000000000000")
 		funds = sdk.NewCoins(sdk.NewCoin("asetl", big27), sdk.NewCoin("uusdc", big27), sdk.NewCoin("setl", big27))
 		for _, d := range tenantDenoms {
-			funds = funds.Add(sdk.NewCoin(d, sdk.NewInt(h.Funds)))
+			amt := sdk.NewInt(h.Funds)
+			if h.BigFunds {
+				amt, _ = sdk.NewIntFromString("1000000000000000000000000000000")
+			}
+			funds = funds.Add(sdk.NewCoin(d, amt))
 		}
 	}
 	g := GenesisSpec{Vals: vals, NAccts: h.NAccts, Oracle: op, Settlement: sp, Funds: funds}
